@@ -97,3 +97,17 @@ def sorted_by_start(rs):
         if not (rs[i].start <= rs[i + 1].start):
             return False
     return True
+
+
+def expected_hour(H, is_am, is_pm):
+    """24-hour value of clock hour H with an optional am / pm marker (12 am is 00, 12 pm is 12)"""
+    h = H
+    if is_am:
+        if h >= 12:
+            h = h - 12
+    elif is_pm:
+        if h < 12:
+            h = h + 12
+    if h == 24:
+        h = 0
+    return h
